@@ -121,9 +121,26 @@ func (h *Handler) delete(lease *Lease) {
 	delete(h.table, string(lease.ClientID))
 }
 
+// validRequestedIP reports whether the address requested by the client may be offered to lease: it must be
+// inside the lease's subnet, must not be the network, broadcast, host or router address and must not be on
+// offer to another client.
+func (h *Handler) validRequestedIP(lease *Lease, ip netip.Addr) bool {
+	if !lease.subnet.LAN.Contains(ip) || ip == lease.subnet.LAN.Addr() || ip == lease.subnet.broadcast ||
+		ip == h.session.NICInfo.HostAddr4.IP || ip == h.session.NICInfo.RouterAddr4.IP {
+		return false
+	}
+	now := time.Now()
+	for _, l := range h.table {
+		if l != lease && l.State == StateDiscover && l.IPOffer == ip && l.OfferExpiry.After(now) {
+			return false
+		}
+	}
+	return true
+}
+
 // allocIPOffer allocates a free IP to the lease entry
 func (h *Handler) allocIPOffer(lease *Lease, reqIP netip.Addr) error {
-	if reqIP.Is4() {
+	if reqIP.Is4() && h.validRequestedIP(lease, reqIP) {
 		if l := h.findByIP(reqIP); l == nil || l.State == StateFree || bytes.Equal(l.ClientID, lease.ClientID) {
 			if h.session.FindIP(reqIP) == nil {
 				lease.IPOffer = reqIP
